@@ -47,6 +47,13 @@ type Config struct {
 	Shard    int         `json:"shard"`
 	Shards   int         `json:"shards"`
 	Replay   *Witness    `json:"replay,omitempty"`
+
+	// the concurrent part (conc.go)
+	Conc           []ConcTable  `json:"conc,omitempty"`
+	Mode           string       `json:"mode,omitempty"` // "" | "race"
+	RaceGoroutines int          `json:"race_goroutines,omitempty"`
+	RaceReps       int          `json:"race_reps,omitempty"`
+	ReplayConc     *ConcWitness `json:"replay_conc,omitempty"`
 }
 
 // Witness is a self-contained failing case.
@@ -90,10 +97,20 @@ type Result struct {
 	CappedRequests map[string]int64      `json:"capped_requests"`
 	Error          string                `json:"error,omitempty"`
 	CPUSeconds     float64               `json:"cpu_s"`
+
+	ConcScenarios     int64                     `json:"conc_scenarios"`
+	ConcSchedules     int64                     `json:"conc_schedules"`
+	ConcTransitions   int64                     `json:"conc_transitions"`
+	ConcPerTable      map[string]int64          `json:"conc_per_table"`
+	ConcViolations    map[string]*ConcViolation `json:"conc_violations"`
+	ConcSamples       []map[string]any          `json:"conc_samples"`
+	RaceLookups       int64                     `json:"race_lookups"`
+	RaceMismatches    int64                     `json:"race_mismatches"`
+	RaceFirstMismatch string                    `json:"race_first_mismatch"`
 }
 
 var (
-	res      = Result{Violations: map[string]*Violation{}, PerFamily: map[string]int64{}, RealRequests: map[string]int64{}, CappedRequests: map[string]int64{}}
+	res      = Result{Violations: map[string]*Violation{}, PerFamily: map[string]int64{}, RealRequests: map[string]int64{}, CappedRequests: map[string]int64{}, ConcPerTable: map[string]int64{}, ConcViolations: map[string]*ConcViolation{}}
 	distinct = map[[8]byte]struct{}{}
 )
 
@@ -1090,6 +1107,20 @@ func main() {
 		return
 	}
 
+	if cfg.ReplayConc != nil {
+		replayConc(*cfg.ReplayConc)
+		writeResult()
+
+		return
+	}
+
+	if cfg.Mode == "race" {
+		racePass(cfg.Conc, cfg.RaceGoroutines, cfg.RaceReps)
+		writeResult()
+
+		return
+	}
+
 	debug := os.Getenv("VERIF_C32_DEBUG") != ""
 
 	if pf := os.Getenv("VERIF_C32_PROF"); pf != "" {
@@ -1115,6 +1146,12 @@ func main() {
 		if debug {
 			fmt.Fprintf(os.Stderr, "c32 worker %d: table %s done at %.1fs, evals %d probes %d\n", cfg.Shard, rt.Name, time.Since(t0).Seconds(), res.Evals, res.Probes)
 		}
+	}
+
+	runConc(cfg.Conc, cfg.Shard, cfg.Shards)
+
+	if debug {
+		fmt.Fprintf(os.Stderr, "c32 worker %d: concurrent part done at %.1fs, scenarios %d schedules %d\n", cfg.Shard, time.Since(t0).Seconds(), res.ConcScenarios, res.ConcSchedules)
 	}
 
 	writeResult()
